@@ -69,7 +69,8 @@ class Gen:
             v = rng.randint(0, len(kids)) if self.documented else rng.randint(*self.values)
         d = ""
         if c in ("ccAny", "ccXor"):
-            lk = [k["id"] for k in kids if k["c"] == "leaf"]
+            # the default alternative is a leaf that cannot go negative (DESIGN observation O4)
+            lk = [k["id"] for k in kids if k["c"] == "leaf" and k["lo"] >= 0]
             if lk and rng.random() < 0.7: d = rng.choice(lk)
         r = {"c": c, "a": kids, "id": ident, "v": v, "s": s, "d": d}
         self.made.append(r)
